@@ -90,13 +90,13 @@ Proof.
        replace (N + - N') with (N - N') by lra; reflexivity)
     | (* an equivalent rewrite of the source line: split every decision on both sides *)
       (x_proj; rewrite ?ofZ_X; unfold Rltb, Rleb;
-       repeat (x_red;
+       repeat (x_red; unfold xscale_inf;
                match goal with
                | |- context [Req_EM_T ?a ?b] => destruct (Req_EM_T a b)
                | |- context [Rlt_dec ?a ?b] => destruct (Rlt_dec a b)
                end;
                try contradiction; try (exfalso; unfold Rdiv in *; lra));
-       x_red;
+       x_red; unfold xscale_inf;
        first [ reflexivity
              | (f_equal; kv_ln_norm; first [reflexivity | lra | (unfold Rdiv; ring) | (field; lra)])
              | (exfalso; unfold Rdiv in *; nra) ]) ].
